@@ -23,6 +23,7 @@ pub struct Known {
     pub pattern: String,
     pub what: String,
     pub status: String,
+    pub shim: Option<String>,
 }
 
 pub fn load_known() -> Vec<Known> {
@@ -41,18 +42,46 @@ pub fn load_known() -> Vec<Known> {
             pattern: e["match"].as_str().unwrap_or("").to_string(),
             what: e["what"].as_str().unwrap_or("").to_string(),
             status: e["status"].as_str().unwrap_or("").to_string(),
+            shim: e["shim"].as_str().map(|x| x.to_string()),
         });
     }
     out
 }
 
-pub fn match_known<'a>(known: &'a [Known], v: &Violation) -> Option<&'a Known> {
-    known.iter().find(|k| {
-        k.status == "known"
-            && k.property == v.property
-            && !k.pattern.is_empty()
-            && v.fingerprint.contains(&k.pattern)
-    })
+/// Attribute a violation to a recorded known finding, or to none.
+///
+/// Panics are identified by (source file, message template). Semantic differences are
+/// identified by a *shim*: the case is re-run with the simulated adapter avoiding the one call
+/// site the recorded defect lives at; only if the violation class then disappears is it
+/// attributed to that finding, so a different violation of the same property is still reported.
+pub fn match_known<'a>(
+    known: &'a [Known],
+    prop: &str,
+    tapes: &[Vec<u32>; 5],
+    v: &Violation,
+) -> Option<&'a Known> {
+    for k in known {
+        if k.status != "known" || k.property != v.property || k.pattern.is_empty() {
+            continue;
+        }
+        if !v.fingerprint.contains(&k.pattern) {
+            continue;
+        }
+        match &k.shim {
+            None => return Some(k),
+            Some(shim) => {
+                crate::adapter::SHIMS.with(|s| s.borrow_mut().insert(shim.clone()));
+                let res = replay_case(prop, tapes);
+                crate::adapter::SHIMS.with(|s| s.borrow_mut().clear());
+                if let Ok(r) = res {
+                    if !r.violations.iter().any(|x| x.class == v.class) {
+                        return Some(k);
+                    }
+                }
+            }
+        }
+    }
+    None
 }
 
 fn seed_from_env() -> u64 {
@@ -139,7 +168,10 @@ fn replay_case(prop: &str, tapes: &[Vec<u32>; 5]) -> Result<CaseResult, HarnessE
 
 fn fails_same(prop: &str, tapes: &[Vec<u32>; 5], class: &str, known: &[Known]) -> bool {
     match replay_case(prop, tapes) {
-        Ok(r) => r.violations.iter().any(|v| v.class == class && match_known(known, v).is_none()),
+        Ok(r) => r
+            .violations
+            .iter()
+            .any(|v| v.class == class && match_known(known, prop, tapes, v).is_none()),
         Err(_) => false,
     }
 }
@@ -397,7 +429,7 @@ pub fn check(prop: &str, tier: &str, runs_override: Option<u64>) -> i32 {
                     }
                 }
                 for v in &r.violations {
-                    match match_known(&known, v) {
+                    match match_known(&known, prop, &rec.tapes, v) {
                         Some(k) => {
                             let e = known_hits
                                 .entry(k.pattern.clone())
@@ -433,6 +465,19 @@ pub fn check(prop: &str, tier: &str, runs_override: Option<u64>) -> i32 {
         println!("KNOWN-FINDING: property={prop} {what} [match={pat}; hit in {n} runs]");
     }
 
+    if std::env::var("TFSIM_LIST").is_ok() {
+        let mut table: BTreeMap<String, (u64, u64, String)> = BTreeMap::new();
+        for (run, v, _) in &unknown {
+            let key = format!("{}|{}", v.class, v.fingerprint.split("|features=").next().unwrap_or(""));
+            let e = table.entry(key).or_insert((0, *run, v.detail.clone()));
+            e.0 += 1;
+        }
+        for (k, (n, run, detail)) in &table {
+            println!("LIST n={n} first_run={run} {k}\n      {}", &detail[..detail.len().min(300)]);
+        }
+        return if unknown.is_empty() { 0 } else { 1 };
+    }
+
     // Report up to 3 unknown violations with distinct fingerprints, minimised.
     let mut reported = 0;
     let mut seen_fp = BTreeSet::new();
@@ -452,7 +497,7 @@ pub fn check(prop: &str, tier: &str, runs_override: Option<u64>) -> i32 {
             Ok(r) => r
                 .violations
                 .into_iter()
-                .find(|x| x.class == v.class && match_known(&known, x).is_none())
+                .find(|x| x.class == v.class && match_known(&known, prop, &small, x).is_none())
                 .unwrap_or_else(|| v.clone()),
             Err(_) => v.clone(),
         };
@@ -534,7 +579,7 @@ pub fn replay(path: &str) -> i32 {
         Ok(r) => {
             let mut hit = false;
             for v in &r.violations {
-                let k = match_known(&known, v).is_some();
+                let k = match_known(&known, &prop, &tapes, v).is_some();
                 println!(
                     "{} property={} class={} detail={}",
                     if k { "KNOWN-FINDING:" } else { "VIOLATION" },
